@@ -82,7 +82,7 @@ SUPPRESSIONS = [
     ],
     Suppression(
         "aiomysensors.transport.mqtt.*",  # read() of the transport, or of the base class that owns the queue
-        r"self\._incoming_messages\.task_done\(\)$",
+        r"^self\.\w+\.task_done\(\)$",
         S.VE,
         "task_done() directly follows exactly one successful get() on the same queue in the same function",
         "task_done_follows_get",
@@ -404,10 +404,39 @@ class EEA:
         if len(stmts) < 2:
             return False
         a, b = stmts[0], stmts[1]
-        ok_a = isinstance(a, ast.Assign) and isinstance(a.value, ast.Await) and isinstance(a.value.value, ast.Call) and norm(a.value.value.func).endswith("_incoming_messages.get")
-        ok_b = isinstance(b, ast.Expr) and isinstance(b.value, ast.Call) and norm(b.value.func).endswith("_incoming_messages.task_done")
+        qs = {f"self.{q}" for q in self.queue_attrs()}
+        ok_a = isinstance(a, ast.Assign) and isinstance(a.value, ast.Await) and isinstance(a.value.value, ast.Call) and isinstance(a.value.value.func, ast.Attribute) and a.value.value.func.attr == "get" and norm(a.value.value.func.value) in qs
+        ok_b = isinstance(b, ast.Expr) and isinstance(b.value, ast.Call) and isinstance(b.value.func, ast.Attribute) and b.value.func.attr == "task_done" and ok_a and norm(b.value.func.value) == norm(a.value.value.func.value)
         n_done = sum(1 for n in self.I.own_nodes(f) if isinstance(n, ast.Call) and norm(n.func).endswith(".task_done"))
         return bool(ok_a and ok_b and n_done == 1)
+
+    def queue_attrs(self) -> set:
+        """Names under which the MQTT transport's receive queue is reached on `self`: the attribute its constructor
+        chain binds to a Queue construction, and properties that only return that attribute."""
+        cached = getattr(self, "_queue_attrs", None)
+        if cached is not None:
+            return cached
+        out: set = set()
+        d = self.prog.lookup_fullname("aiomysensors.transport.mqtt.MQTTTransport")
+        if d is not None and d.kind == "class":
+            for c in d.obj.repo_mro():
+                for init in c.methods.get("__init__", []):
+                    for n in ast.walk(init.node):
+                        if isinstance(n, (ast.Assign, ast.AnnAssign)) and isinstance(n.value, ast.Call) and norm(n.value.func).rsplit(".", 1)[-1].endswith("Queue"):
+                            for t in n.targets if isinstance(n, ast.Assign) else [n.target]:
+                                if isinstance(t, ast.Attribute) and isinstance(t.value, ast.Name) and t.value.id == init.positional_params[0]:
+                                    out.add(t.attr)
+            for c in d.obj.repo_mro():
+                for nm, fl in c.methods.items():
+                    for f in fl:
+                        if "property" in f.decorator_names and not f.is_setter():
+                            body = [s for s in f.node.body if not (isinstance(s, ast.Expr) and isinstance(s.value, ast.Constant))]
+                            if len(body) == 1 and isinstance(body[0], ast.Return) and isinstance(body[0].value, ast.Attribute) and isinstance(body[0].value.value, ast.Name) and body[0].value.attr in out:
+                                out.add(nm)
+        if not out:
+            out = {"_incoming_messages"}
+        self._queue_attrs = out
+        return out
 
     def _enclosing_if_tests(self, f: FuncInfo, line: int) -> list[ast.expr]:
         """Tests of the `if` statements whose *body* contains the given line."""
